@@ -258,7 +258,7 @@ func init() {
 		Assumptions: []string{"record names/namespaces are not compared (the statement is silent)", "open finding c15.named-struct-reused: the 'defined once' rule is not evaluated on types that use one named struct at several positions"},
 		Modes:       func(tier string) []core.Mode { return []core.Mode{{Name: "plain", Variant: "plain"}} },
 		NumCases: func(c *core.Ctx) int {
-			return len(statictypes.Cases) + len(statictypes.RecursiveCases) + c.Pick(1500, 30000)
+			return len(statictypes.Cases) + len(statictypes.RecursiveCases) + c.Pick(4000, 60000)
 		},
 		Run:      runC15,
 		Findings: map[string]func(c *core.Ctx) string{"c15.named-struct-reused": findingNamedReused},
